@@ -91,6 +91,94 @@ def hostile_requires(rng, case):
     return case
 
 
+def targeted_departures(rng, spec, history):
+    """remove_from_assoc operations for assets that have an existence step whose requirement starts with the field
+    through which the association is seen, taken from associations that survive the departure (>= 2 members on
+    that side): exactly the edits after which 'does the requirement reach anything' changes"""
+    from ..shadow import Lockstep, Divergence
+    try:
+        ls = Lockstep(spec)
+        ls.check_every_step = False
+        for op in history:
+            ls.apply(op)
+    except (Divergence, Exception):
+        return []
+    lang, sh = ls.lang, ls.sh
+
+    def first_fields(e, acc):
+        k = e['type']
+        if k == 'field':
+            acc.add(e['name'])
+        elif k in ('collect',):
+            first_fields(e['lhs'], acc)
+        elif k in ('union', 'intersection', 'difference'):
+            first_fields(e['lhs'], acc)
+            first_fields(e['rhs'], acc)
+        elif k in ('subType', 'transitive'):
+            first_fields(e['stepExpression'], acc)
+        elif k == 'variable':
+            pass
+        return acc
+    cands = []
+    for si, srec in enumerate(sh.assocs):
+        la = lang.assocs[srec.ai]
+        for side, seen_through in ((srec.left, la['rightField']), (srec.right, la['leftField'])):
+            if len(side) < 2:
+                continue
+            for key in side:
+                a = sh.asset(key)
+                for st in lang.steps(a.type).values():
+                    if st['type'] in ('exist', 'notExist') and st['requires'] and seen_through in first_fields(st['requires']['stepExpressions'][0], set()):
+                        cands.append(['remove_from_assoc', ['live', sh.assets.index(a)], ['live', si]])
+    rng.shuffle(cands)
+    return cands[:3]
+
+
+def targeted_links(rng, spec, history):
+    """(ops before the generation, ops after it): two assets X1, X2 of a type with an existence step share one
+    association instance that gives X1 what its requirement asks for; after the generation X1 leaves that
+    association (which survives because X2 stays)"""
+    from ..shadow import Lockstep, Divergence
+    try:
+        ls = Lockstep(spec)
+        ls.check_every_step = False
+        for op in history:
+            ls.apply(op)
+    except (Divergence, Exception):
+        return [], []
+    lang, sh = ls.lang, ls.sh
+    conc = lang.concrete()
+    options = []
+    for t in conc:
+        for st in lang.steps(t).values():
+            if st['type'] not in ('exist', 'notExist') or not st['requires']:
+                continue
+            e = st['requires']['stepExpressions'][0]
+            while e['type'] in ('collect',):
+                e = e['lhs']
+            if e['type'] != 'field':
+                continue
+            f = e['name']
+            for ai, la in enumerate(lang.assocs):
+                if la['leftField'] == f and lang.is_sub(t, la['rightAsset']) and (la['rightMultiplicity']['max'] in (None,) or la['rightMultiplicity']['max'] >= 2):
+                    ys = [c for c in conc if lang.is_sub(c, la['leftAsset'])]
+                    if ys:
+                        options.append((t, ai, 'right', rng.choice(ys)))
+                if la['rightField'] == f and lang.is_sub(t, la['leftAsset']) and (la['leftMultiplicity']['max'] in (None,) or la['leftMultiplicity']['max'] >= 2):
+                    ys = [c for c in conc if lang.is_sub(c, la['rightAsset'])]
+                    if ys:
+                        options.append((t, ai, 'left', rng.choice(ys)))
+    if not options:
+        return [], []
+    t, ai, side, ytype = rng.choice(options)
+    n = len(sh.assets)
+    pre = [['add_asset', t, 'leaver', None, True], ['add_asset', t, 'stayer', None, True], ['add_asset', ytype, 'wanted', None, True]]
+    xs, y = [['live', n], ['live', n + 1]], [['live', n + 2]]
+    pre.append(['add_assoc', ai, y, xs] if side == 'right' else ['add_assoc', ai, xs, y])
+    post = [['remove_from_assoc', ['live', n], ['live', len(sh.assocs)]]]
+    return pre, post
+
+
 def _check_case(case, res, count=True):
     case = copy.deepcopy(case)
     try:
@@ -267,9 +355,14 @@ def run(rng, res, tier, shard, nshards):
             h = gen_history(rng, Lang(case['spec']), rng.randint(5, 30), invalid=0.0, attackers=False, names=['srv', 'db', 'n', 'x', None])
             for _ in range(rng.randint(1, 3)):
                 h.insert(rng.randrange(len(h) + 1), ['add_assoc', rng.randrange(64), [['live', rng.randrange(64)], ['live', rng.randrange(64)]], [['live', rng.randrange(64)]]])
-            cut = rng.randrange(len(h) + 1)
-            for _ in range(rng.randint(1, 3)):
-                h.insert(rng.randrange(cut, len(h) + 1), ['remove_from_assoc', ['live', rng.randrange(64)], ['live', rng.randrange(64)]])
+            pre, post = targeted_links(rng, case['spec'], h)
+            h.extend(pre)
+            cut = len(h)
+            h.extend(post)
+            if not pre:
+                h.extend(targeted_departures(rng, case['spec'], h[:cut]))
+                for _ in range(rng.randint(0, 3)):
+                    h.append(['remove_from_assoc', ['live', rng.randrange(64)], ['live', rng.randrange(64)]])
             case = {'source': 'history', 'spec': case['spec'], 'amodel': {'assets': [], 'links': [], 'attackers': []},
                     'history': h, 'generate_after': cut}
         first = check_case(case, res)
